@@ -131,6 +131,20 @@ class ImplCheck:
                            f'{states[-1]}', case, expected='no such state',
                            got=dict(path=states, detail=detail),
                            key=self.classify(g, r, lp, res))
+        # memory variables within their declared ranges at reachable states
+        nP, nR = len(g['P']), len(g['R'])
+        lim = {'_goal': nR - 1, '_hold': nP}
+        for s in sorted(lp.seen):
+            sd = ear.state_dict(*lp.state(s))
+            for name, hi in lim.items():
+                if name in sd and not (0 <= sd[name] <= hi):
+                    states = [ear.state_dict(*lp.state(t))
+                              for t in lp.path_to(lp.parent, s)]
+                    return Failing(
+                        f'{self.KIND} implementation: memory variable {name} = '
+                        f'{sd[name]} outside 0..{hi} at a reachable state', case,
+                        expected='memory within its declared range',
+                        got=dict(path=states))
         res = lp.check_liveness()
         if res:
             what, comp = res
